@@ -214,7 +214,7 @@ def configs(tier):
 def jobs(tier):
     js = []
     for cfg in configs(tier):
-        bound = 3 if tier == 'thorough' else 2
+        bound = 4 if tier == 'thorough' else 3
         if bound == 1:
             js.append((cfg, 1, ()))
         else:
@@ -388,7 +388,7 @@ def main(tier, seed):
             'pairs), both roles.  non-trivial = execution in which at least one re-exchange started')
     return core.finish(PROP, tier, seed, 'model_checking', acc, t0, rule,
                        {'A_execs': n_a, 'B_execs': acc.evaluations - n_a,
-                        'deviation_bound': 2 if tier == 'quick' else 3,
+                        'deviation_bound': 3 if tier == 'quick' else 4,
                         'rekeys_started_total': acc.counters.get('rekeys', 0)})
 
 
